@@ -227,7 +227,9 @@ where
             }
             Decoded::Packet(Packet::PublishRelease(pkt), size) => {
                 if self.inner.info.borrow().inflight.contains(&pkt.packet_id) {
-                    self.inner.control(ProtocolMessage::pubrel(pkt, size)).await
+                    // packet id is released when PUBCOMP is produced
+                    let id = pkt.packet_id.get();
+                    self.inner.control_pkt(ProtocolMessage::pubrel(pkt, size), id).await
                 } else {
                     Ok(Some(Encoded::Packet(codec::Packet::PublishComplete(
                         codec::PublishAck2 {
